@@ -395,11 +395,22 @@ def x_rules(p: Project, rep: Report):
                 if cn.id not in pth.marks:
                     continue
                 idx = pth.nodes.index(cn.id)
-                vals = [text(PT.value_on_path(pth, fcfg, a, upto=idx)) for a in c.args]
+                vasts = [PT.value_on_path(pth, fcfg, a, upto=idx) for a in c.args]
+                vals = [text(v_) for v_ in vasts]
                 seen_call = True
-                ok_tag = _re.fullmatch(G + r"\['tag'\]", vals[0]) is not None or vals[0] == "match.group('tag')"
-                ok_close = _re.fullmatch(G + r"\['closetag'\]", vals[2]) is not None or vals[2] == "match.group('closetag')"
-                ok_text = _re.fullmatch(G + r"\['cdata'\] or self\._groomstring\(" + G + r"\['text'\]\)", vals[1]) is not None
+
+                def group_ref(e_):
+                    """name of the match group an expression reads: <groupdict or a local holding it>['n'] / <match>.group('n')"""
+                    if isinstance(e_, ast.Subscript) and isinstance(e_.slice, ast.Constant) and isinstance(e_.slice.value, str) and (isinstance(e_.value, ast.Name) or text(e_.value).endswith(".groupdict()")):
+                        return e_.slice.value
+                    if isinstance(e_, ast.Call) and isinstance(e_.func, ast.Attribute) and e_.func.attr == "group" and len(e_.args) == 1 and isinstance(e_.args[0], ast.Constant) and isinstance(e_.func.value, ast.Name):
+                        return e_.args[0].value
+                    return None
+
+                ok_tag = group_ref(vasts[0]) == "tag"
+                ok_close = group_ref(vasts[2]) == "closetag"
+                tv_ = vasts[1]
+                ok_text = isinstance(tv_, ast.BoolOp) and isinstance(tv_.op, ast.Or) and len(tv_.values) == 2 and group_ref(tv_.values[0]) == "cdata" and isinstance(tv_.values[1], ast.Call) and text(tv_.values[1].func) == "self._groomstring" and len(tv_.values[1].args) == 1 and group_ref(tv_.values[1].args[0]) == "text"
                 rep.check("X-R4", "feed:passes-own-groups", bool(ok_tag and ok_close), f"feed() hands tag={vals[0][:40]}, closetag={vals[2][:40]} to _feedmatch; expected the match's own 'tag' and 'closetag' groups" if not (ok_tag and ok_close) else "", ploc(p, feed0))
                 rep.check("X-R4", "feed:text-trimmed-cdata-verbatim", bool(ok_text), f"the data handed on is {vals[1][:80]}; expected <cdata group, verbatim> or _groomstring(<text group>)" if not ok_text else "", ploc(p, feed0))
     if not seen_call:
@@ -413,12 +424,14 @@ def x_rules(p: Project, rep: Report):
     for pth, rtxt, sc in rps:
         if rtxt == "None":
             continue
-        base_ok = rtxt in (f"({gp} or '').strip()", f"{gp}.strip()")
+        or_none = rtxt.endswith(" or None")
+        core = rtxt[: -len(" or None")] if or_none else rtxt
+        base_ok = core in (f"({gp} or '').strip()", f"{gp}.strip()")
         if not base_ok:
             ok, why = False, f"a path returns {rtxt[:50]}: data is not whitespace-trimmed (or is altered)"
             continue
         some_value = True
-        if sc.get(f"bool({rtxt})") is not True:
+        if not or_none and sc.get(f"bool({rtxt})") is not True:
             ok, why = False, "a blank string is returned instead of None"
     if ok and not some_value:
         ok, why = False, "_groomstring never returns the stripped string"
